@@ -324,11 +324,15 @@ impl RunObs {
 /// never together with bytes of the line after it.  (`eng_cnf::line_schedule` expresses the same
 /// for lines that fit into one read.)  State: data, offset, fault, ended.
 #[derive(Clone)]
-pub struct LineSrc(pub std::rc::Rc<std::cell::RefCell<(Vec<u8>, usize, bool, bool)>>);
+pub struct LineSrc(pub std::rc::Rc<std::cell::RefCell<(Vec<u8>, usize, bool, bool)>>, pub usize);
 
 impl LineSrc {
     pub fn new(data: Vec<u8>, fault: bool) -> Self {
-        LineSrc(std::rc::Rc::new(std::cell::RefCell::new((data, 0, fault, false))))
+        LineSrc(std::rc::Rc::new(std::cell::RefCell::new((data, 0, fault, false))), usize::MAX)
+    }
+    /// at most `piece` bytes per read (`piece = 1`: one byte per read, `ls=2`)
+    pub fn pieces(data: Vec<u8>, fault: bool, piece: usize) -> Self {
+        LineSrc(std::rc::Rc::new(std::cell::RefCell::new((data, 0, fault, false))), piece)
     }
 }
 
@@ -345,7 +349,7 @@ impl std::io::Read for LineSrc {
             return Ok(0);
         }
         let line_end = s.0[off..].iter().position(|b| *b == b'\n').map(|p| off + p + 1).unwrap_or(len);
-        let k = (line_end - off).min(buf.len());
+        let k = (line_end - off).min(buf.len()).min(self.1);
         buf[..k].copy_from_slice(&s.0[off..off + k]);
         s.1 += k;
         Ok(k)
@@ -358,7 +362,11 @@ pub fn run_parser(src: SchedSource, chunk: usize) -> RunObs {
 }
 
 pub fn run_parser_lines(data: Vec<u8>, fault: bool) -> RunObs {
-    let src = LineSrc::new(data, fault);
+    run_parser_pieces(data, fault, usize::MAX)
+}
+
+pub fn run_parser_pieces(data: Vec<u8>, fault: bool, piece: usize) -> RunObs {
+    let src = LineSrc::pieces(data, fault, piece);
     let log = src.clone();
     run_parser_on(src, move || log.0.borrow().1, 16384)
 }
@@ -533,6 +541,8 @@ pub fn reference_read(data: &[u8]) -> Option<Vec<(String, usize)>> {
 pub struct Case {
     pub k: Option<usize>,
     pub ls: bool,
+    /// `ls=2`: one byte per read (the delivered count is exactly how far the parser looked)
+    pub lsb: bool,
     pub data: Vec<u8>,
     pub expect: Option<String>,
     pub tok: Option<(usize, usize, usize)>,
@@ -546,7 +556,8 @@ impl Case {
         let (_, f) = Fields::parse(line);
         Case {
             k: match f.get("k") { "-" => None, s => Some(s.parse().unwrap()) },
-            ls: f.opt("ls") == Some("1"),
+            ls: matches!(f.opt("ls"), Some("1") | Some("2")),
+            lsb: f.opt("ls") == Some("2"),
             data: data_field(f.get("d")),
             expect: f.opt("x").map(|s| s.to_string()),
             tok: f.opt("t").map(|s| {
@@ -564,7 +575,7 @@ impl Case {
         format!(
             "btor2 k={} ls={} d={}{}{}{}{}",
             match self.k { Some(k) => k.to_string(), None => "-".into() },
-            self.ls as u8,
+            if self.lsb { 2 } else { self.ls as u8 },
             hex(&self.data),
             match &self.expect { Some(x) => format!(" x={}", x), None => String::new() },
             match &self.tok { Some((l, c, n)) => format!(" t={}:{}:{}", l, c, n), None => String::new() },
@@ -612,7 +623,7 @@ pub fn run_case(line: &str) -> (String, Vec<String>) {
 
     if c.ls {
         // C09: one line per read
-        let obs = run_parser_lines(delivered.clone(), fault);
+        let obs = run_parser_pieces(delivered.clone(), fault, if c.lsb { 1 } else { usize::MAX });
         if obs.fin == "E:panic" {
             fails.push("C05:parser panicked".into());
         }
